@@ -51,7 +51,7 @@ plan('C19',
                                   'strings shorter than 19 bytes are stored inline or in a 20-byte block, where an over-read of up to 3 bytes is invisible to ASan'])
 
 
-T('C19', 'reference-model monitor (independent civil-calendar algorithm, cross-checked against python datetime) over exhaustively enumerated days + ASan on generated strings',
+T('C19', 'reference-model monitor (independent civil-calendar algorithm, cross-checked against python datetime) over exhaustively enumerated days + ASan on generated strings + concurrent format/parse under TSan',
   'Runs the real Date code on every day 0001..9999 x 3 times of day (thorough; every 7th day plus all year/leap edges in quick), every second of chosen days, all zone offsets, '
   'and generated/mutated strings under ASan, comparing with an independent oracle; reports what was enumerated.',
   'Trusts the harness oracle (Hinnant civil-from-days, checked against python datetime on every 17th enumerated day), gcc ASan/UBSan, TZ=UTC. Strings shorter than 19 bytes cannot be placed flush against a heap block end.')
